@@ -151,6 +151,13 @@ func (h *MultiHandler) Accept(msg *Message) {
 		return
 	}
 
+	// Compare the sender's view of the previous round's broadcasts with ours before looking at the content:
+	// when the views differ, a failing verification says nothing about the sender's honesty.
+	if !h.checkBroadcastHash() {
+		h.abort(errors.New("broadcast verification failed"))
+		return
+	}
+
 	if msg.Broadcast {
 		if err := h.verifyBroadcastMessage(msg); err != nil {
 			h.abort(err, msg.From)
@@ -293,6 +300,12 @@ func (h *MultiHandler) finalize() {
 		h.abort(nil)
 		return
 	default:
+	}
+
+	// queued messages must agree with our view of the previous round's broadcasts before their content is verified.
+	if !h.checkBroadcastHash() {
+		h.abort(errors.New("broadcast verification failed"))
+		return
 	}
 
 	if _, ok := r.(round.BroadcastRound); ok {
